@@ -14,7 +14,7 @@ ASSUME = ["a cap/cup pair 'satisfies a snake equation' when the followed leg of 
           "axioms; checked numerically on the code by C09 (normal_form invariance)",
           "bounded: all rigid diagrams over the signature of Snake!Shapes within the model constants"]
 CONST = {"quick": {"MaxBoxes": 4, "MaxWidth": 3, "MaxCC": 4, "ZMax": 2, "replay": 3000},
-         "thorough": {"MaxBoxes": 5, "MaxWidth": 3, "MaxCC": 4, "ZMax": 2, "replay": 20000}}
+         "thorough": {"MaxBoxes": 5, "MaxWidth": 3, "MaxCC": 4, "ZMax": 2, "replay": 8000}}
 MAX_STEPS = 80
 
 
@@ -139,7 +139,14 @@ def run(tier, seed, t0):
                 with open(p) as f:
                     fo.write(f.read())
         rows = core.read_ndjson(tf)
-        val = core.validate("Trace_Snake", "J07", tf, work, constants=dict(consts, MaxBoxes=0))
+        # validated in batches (one JVM per 6000 histories keeps TLC's memory bounded in the thorough tier)
+        verdicts = []
+        for lo in range(0, len(rows), 6000):
+            part = os.path.join(work, "trace-%d.ndjson" % lo)
+            core.write_ndjson(part, rows[lo:lo + 6000])
+            verdicts += core.validate("Trace_Snake", "J07", part, work, constants=dict(consts, MaxBoxes=0), timeout=3000)["verdicts"]
+            os.remove(part)
+        val = {"verdicts": verdicts}
         rejected, clauses = [], Counter()
         for t, v in zip(rows, val["verdicts"]):
             clauses[v[0]] += 1
